@@ -41,7 +41,7 @@ CHECKS = {
     "C06": {
         "text": "Theorems: canApply => apply returns a tree (model apply has the same failure points as apply_to); findNodes = filter of in-order nodes; findNode = head. Correspondence of applicable sets, r_index, first match; purity by object-graph snapshots around can_apply_to (called twice).",
         "design_ref": "DESIGN.md 3/C06",
-        "note": COMMON_NOTE + SRC_NOTE + "Absence of writes in can_apply_to cannot be stated about a pure function: it is established by snapshots only (partial).",
+        "note": COMMON_NOTE + "Traversals / searches: Gen/PySrcVisit.lean is regenerated from the live visit_preorder/inorder/postorder and BaseRule.find_node/find_nodes (template-checked) and Src_visits / Src_find_nodes prove the model equal to it. " + SRC_NOTE + "Absence of writes in can_apply_to cannot be stated about a pure function: it is established by snapshots only (partial).",
         "technique": "Lean 4 proof over executable model + classifiers translated from source (proved equal to the model) + differential correspondence + snapshots",
     },
     "C07": {
@@ -105,7 +105,7 @@ CHECKS.update({
     "C14": {
         "text": "Theorems for all binary shapes (0/left/right/2 children): each visit_* makes exactly the callbacks of its defining order cut after the first STOP with true depths and reports STOP correctly; the orders are permutations; path look-ups are sound and complete. Exhaustive correspondence on all shapes up to 6 (8) nodes x orders x stop positions; query oracle.",
         "design_ref": "DESIGN.md 3/C14",
-        "note": COMMON_NOTE,
+        "note": COMMON_NOTE + "Traversals / searches: Gen/PySrcVisit.lean is regenerated from the live visit_preorder/inorder/postorder and BaseRule.find_node/find_nodes (template-checked) and Src_visits / Src_find_nodes prove the model equal to it. ",
         "technique": "Lean 4 proof (structural induction on shapes) + exhaustive differential correspondence",
     },
     "C15": {
